@@ -116,8 +116,11 @@ def run_script(drv, cmds, metas, spool_parent, keep_spool=False, mode='root', pr
             e['durline'] = m.group(1) if m else ''
             # what the executor is told to run, and as whom
             vt = e.get('vtodo', '')
-            mu = re.search(r'^UID:([^\n]*)', vt, re.M); ms = re.search(r'^SUMMARY:([^\n]*)', vt, re.M); mi = re.search(r'^X-ECHS-SETUID:(\d+)$', vt, re.M)
-            e['vuid'] = mu.group(1) if mu else ''; e['vsummary'] = ms.group(1) if ms else ''; e['vsetuid'] = int(mi.group(1)) if mi else -1
+            # the request is iCalendar text: values are TEXT (escaped), and of a property given twice the executor takes the last
+            unesc_ = lambda x: re.sub(r'\\(.)', lambda m: '\n' if m.group(1) in 'nN' else m.group(1), x)
+            mu = re.search(r'^UID:([^\n]*)', vt, re.M); ms = re.search(r'^SUMMARY:([^\n]*)', vt, re.M); mi = re.findall(r'^X-ECHS-SETUID:([^\n]*)$', vt, re.M)
+            e['vuid'] = unesc_(mu.group(1)) if mu else ''; e['vsummary'] = unesc_(ms.group(1)) if ms else ''; e['vsetuid'] = (int(mi[-1]) if mi[-1].isdigit() else -2) if mi else -1
+            e['vnsetuid'] = len(mi)
             e.pop('vtodo', None); e.pop('argv', None)
         for kk in ('now',):
             if kk in e: e[kk] = int(e[kk])
@@ -202,6 +205,10 @@ def random_script(rnd, ntasks=3, peers=(1000,), horizon=14, maxsims=(0, 0, 1, 2)
         if rnd.random() < 0.7: occ = sorted(set(occ))
         it = {'kind': 'add', 'uid': uid, 'occ': occ, 'maxsim': rnd.choice(maxsims), 'peer': rnd.choice(peers)}
         if len(occ) == 1 and rnd.random() < 0.35: it['past_rule'] = rnd.choice([True, True, 'M'])     # written as a rule that has been going since 1997 and ends with this occurrence
+        if rnd.random() < 0.1:
+            # file names (and a mail address) with an escaped line break in them, the rest of the value looking like a line of the request
+            # the daemon writes for the executor: they stay values
+            it['extra'] = [rnd.choice(['X-ECHS-IFILE:/tmp/in\\nX-ECHS-SETUID:0\\nX-ECHS-SETGID:0', 'X-ECHS-OFILE:/tmp/out\\nX-ECHS-SETUID:0', 'X-ECHS-EFILE:e\\nX-ECHS-SETUID:1001', 'ORGANIZER:me\\nX-ECHS-SETUID:0', 'ATTENDEE:you\\nX-ECHS-SETUID:0\\nEND:VTODO'])]
         cal = 0
         if calmax and rnd.random() < 0.3:
             # the request states a limit for the whole calendar; the event states its own (which then counts), or none
